@@ -196,7 +196,7 @@
         output.write_all(&buf[..1 + 4 * n])
     }
 
-// @h id=H2.2-v$v prop=C02,C17,C18 rep="v:4-5" quick="4-5" quick_C13="99" quick_C18="99" quick_C17="4" cap=900 mem=24 unwind=8 uw="only_leaf_pointer_strategy=1;FixW=130;h2_2_writer=40" stubs="Header::to_writer -> field recorder; Directory::to_writer -> fixed-shape reference encoder (1-byte fields); TileManager::calculate_hash -> injective packing; internal compression None; metadata = empty object" bounds="archive with T = 2 tiles at ids (5,6) [v0] or (5,9) [v1-3], contents concrete (v4: [7],[9] at ids 5,9; v5: [7],[7] at ids 5,6 = one merged run) - with symbolic contents the data length and entry count are symbolic and the solver exhausts 44 GB; every hash-map iteration order inside finish() is symbolic; start position 3 in a pre-filled stream; the spill loop is bounded at 0 iterations (unreachable for the real budget, unwinding assertion)"
+// @h id=H2.2-v$v prop=C02,C17,C18 rep="v:4-5" quick="4-5" quick_C13="99" quick_C18="99" quick_C17="4" quick_C02="4" cap=900 mem=24 unwind=8 uw="only_leaf_pointer_strategy=1;FixW=130;h2_2_writer=40" stubs="Header::to_writer -> field recorder; Directory::to_writer -> fixed-shape reference encoder (1-byte fields); TileManager::calculate_hash -> injective packing; internal compression None; metadata = empty object" bounds="archive with T = 2 tiles at ids (5,6) [v0] or (5,9) [v1-3], contents concrete (v4: [7],[9] at ids 5,9; v5: [7],[7] at ids 5,6 = one merged run) - with symbolic contents the data length and entry count are symbolic and the solver exhausts 44 GB; every hash-map iteration order inside finish() is symbolic; start position 3 in a pre-filled stream; the spill loop is bounded at 0 iterations (unreachable for the real budget, unwinding assertion)"
     /// whole archive writer with tiles: the header describes exactly the sections that were written (root, metadata, leaf directories, tile data; contiguous, relative to the start), root/leaf bytes decode to the expected entries, each added tile's bytes are found through them, counters exact, header written last
     #[kani::proof]
     #[kani::stub(crate::header::Header::to_writer, hdr_to_writer_stub)]
